@@ -635,6 +635,7 @@ find_uv(ibz_t *u,
     ibz_finalize(&bv);
     ibz_finalize(&remain);
     ibz_finalize(&adjusted_norm);
+    ibz_finalize(&prod_bad_primes);
     for (int i = 0; i < index; i++) {
         for (int j = 0; j < overstretch; j++) {
             ibz_finalize(&quotients[i][j]);
